@@ -116,8 +116,61 @@ fn annot_tags(f: &Facts, tags: &mut Vec<&'static str>) {
     }
 }
 
+/// C03 at the u16 limit of InformationContent::calculate: a Builder script plus a block of add_* calls
+/// that brings one kind to exactly `target` records (65 535: the last total that is accepted;
+/// 65 536 and more: calculate_information_content returns Err as soon as a term carries the kind)
+fn case_bulk(rng: &mut Rng, target: usize) -> Case {
+    let mut o = Opts::default();
+    o.max_terms = 8;
+    o.min_terms = 2;
+    o.max_records = 5;
+    let (f, s, tag) = loop {
+        let f = gen::gen_facts(rng, o);
+        let kb = rng.below(2) as u8;
+        let s = build::script_from_facts(rng, &f, kb);
+        // the kind must be carried by some term (otherwise every value is 0 and nothing is converted)
+        let linked: Vec<u8> = [&f.genes, &f.omim, &f.orpha]
+            .iter()
+            .enumerate()
+            .filter(|(_, r)| r.iter().any(|x| !x.terms.is_empty()))
+            .map(|(i, _)| i as u8)
+            .collect();
+        // the block's ids must be fresh (the model then appends it at once)
+        if s.annots.iter().all(|a| a.1 < 2_000_000) && !linked.is_empty() {
+            let tag = *rng.pick(&linked);
+            break (f, s, tag);
+        }
+    };
+    let own = match tag {
+        0 => f.genes.len(),
+        1 => f.omim.len(),
+        _ => f.orpha.len(),
+    };
+    let cnt = target - own;
+    let w = World::Bulk(s, tag, 2_000_000, cnt as u32);
+    let bl = w.build();
+    let obs = world::on_onto(&bl, obs_c03);
+    let mut tags = vec!["bulk"];
+    if target > 65535 {
+        tags.push("over_u16");
+    } else {
+        tags.push("nt");
+    }
+    let input = V::T(vec![w.to_v(), dump::ln_table_totals(f.n_records(), &[target])]);
+    Case { input, obs, tags }
+}
+
 pub fn cases_simple(rng: &mut Rng, count: usize, tier: &str, which: &str) -> Vec<Case> {
     let mut out = vec![];
+    if which == "C03" {
+        out.push(case_bulk(rng, 65535));
+        out.push(case_bulk(rng, 65536));
+        if tier == "thorough" {
+            out.push(case_bulk(rng, 65535));
+            let over = 65537 + rng.below(3000) as usize;
+            out.push(case_bulk(rng, over));
+        }
+    }
     while out.len() < count {
         let mut o = Opts::default();
         o.max_terms = if tier == "thorough" && rng.chance(1, 10) { 40 } else { 14 };
